@@ -50,7 +50,8 @@ BaseData == <<
   << 1, 0, 0, 0, 0, 0, 0, 0, 3, 0, 0, 0, 0, 0, 0, 0 >>,
   << 120, 0, 121, 122, 0 >>,
   << 1, 26, 0, 0, 2, 27, 0, 0 >>,
-  << 1, 2, 28, 0, 90, 0, 0, 0, 0, 0, 0, 0, 0, 0, 0, 0, 0, 0, 0, 0, 0, 0, 0, 0 >> >>
+  << 1, 2, 28, 0, 90, 0, 0, 0, 0, 0, 0, 0, 0, 0, 0, 0, 0, 0, 0, 0, 0, 0, 0, 0 >>,
+  << >> >>       \* 7: a zero-length block (every index field is swept onto it: SweepVals has 7)
 
 BaseTypes == << 0, 1, 2, 3, 4, 5, 6, 7 >>
 
@@ -66,6 +67,11 @@ Sweeps ==
   \cup UNION { { [kind |-> "trunc", k |-> k, j |-> n, x |-> 0, j2 |-> 0, x2 |-> 0]
                  : n \in 0..(Len(BaseItems[k].w) - 1) }
                : k \in 1..Len(BaseItems) }
+  \* every data block shortened to 0 bytes, 1 byte and by its last byte (a zero-length string,
+  \* settings block, image, tile array ... behind an otherwise unchanged, valid index)
+  \cup UNION { { [kind |-> "data", k |-> k, j |-> n, x |-> 0, j2 |-> 0, x2 |-> 0]
+                 : n \in {0, 1, Len(BaseData[k]) - 1} \cap 0..(Len(BaseData[k]) - 1) }
+               : k \in 1..Len(BaseData) }
   \cup UNION { { [kind |-> "pair", k |-> p[1], j |-> p[2], x |-> x, j2 |-> p[3], x2 |-> x2]
                  : x \in p[4], x2 \in p[5] }
                : p \in Pairs }
@@ -78,7 +84,10 @@ ItemsOf(s) ==
             [] s.kind = "pair" -> [BaseItems[k] EXCEPT !.w[s.j] = s.x, !.w[s.j2] = s.x2]
             [] OTHER -> BaseItems[k]])
 
-DfOf(s) == [types |-> BaseTypes, items |-> ItemsOf(s), data |-> BaseData]
+DataOf(s) ==
+  IF s.kind = "data" THEN [BaseData EXCEPT ![s.k] = SubSeq(@, 1, s.j)] ELSE BaseData
+
+DfOf(s) == [types |-> BaseTypes, items |-> ItemsOf(s), data |-> DataOf(s)]
 
 Init == v \in Versions /\ sw = NoSweep
 Next == sw = NoSweep /\ sw' \in Sweeps /\ UNCHANGED v
@@ -89,9 +98,10 @@ Spec == Init /\ [][Next]_vars
 Emit ==
   LET df == DfOf(sw)
       L == Layout(v, df)
-  IN /\ sw.kind \in {"none", "trunc"} =>
+  IN /\ sw.kind \in {"none", "trunc", "data"} =>
           LET B == FileBytes(L)
               R == Read(B, << >>)
-          IN R.open = "ok" /\ R.items = df.items /\ ValidDoc(B, << >>)
+          IN /\ R.open = "ok" /\ R.items = df.items /\ ValidDoc(B, << >>)
+             /\ \A k \in 1..Len(df.data) : R.data[k] = [r |-> "ok", b |-> df.data[k]]
      /\ PrintT(<< "M", ToJson([kind |-> "map", v |-> v, sw |-> sw, L |-> L]) >>)
 =============================================================================
